@@ -897,6 +897,23 @@ func (sc *storageContext) importIssuer(certValue string, issuerName string) (*is
 
 	result.SerialNumber = serialFromCert(issuerCert)
 
+	// A certificate this mount already holds a revocation entry for stays
+	// revoked when it is imported (again) as an issuer: the CRL builder
+	// leaves revocation entries of issuer certificates to the issuers'
+	// own revoked flag, so a revoked issuer that was removed and imported
+	// anew would otherwise drop off its parent's CRL while still unexpired.
+	if revEntry, err := fetchCertBySerial(sc, revokedPath, result.SerialNumber); err == nil && revEntry != nil {
+		var revInfo revocationInfo
+		if err := revEntry.DecodeJSON(&revInfo); err == nil && bytes.Equal(revInfo.CertificateBytes, issuerCert.Raw) {
+			result.Revoked = true
+			result.RevocationTime = revInfo.RevocationTime
+			result.RevocationTimeUTC = revInfo.RevocationTimeUTC
+			if result.Usage.HasUsage(IssuanceUsage) {
+				result.Usage.ToggleUsage(IssuanceUsage)
+			}
+		}
+	}
+
 	// Before we return below, we need to iterate over _all_ keys and see if
 	// one of them a public key matching this certificate, and if so, update our
 	// link accordingly. We fetch the list of keys up front, even may not need
